@@ -39,8 +39,19 @@ def h_issubclass(it, args, kw, node):
 def h_type(it, args, kw, node):
     if len(args) == 1:
         return it.type_of(args[0])
-    if contains_symbolic(args):
-        it.outside("type(name, bases, ns) with symbolic arguments", node)
+    if contains_symbolic(args) or getattr(it, "abstract_type_creation", False):
+        # class creation: a fresh class, subclass of exactly the closure of `bases`
+        # (DESIGN.md 5.2); recorded so that a contract can inspect it
+        name, bases, ns = args
+        if not isinstance(bases, tuple) or not bases or not isinstance(ns, dict):
+            it.outside("type(name, bases, ns) shape", node)
+        it.ctx._fresh += 1
+        c = SCls(it.kind_of_cls(bases[0]), _new=it.ctx._fresh)
+        c.bases = bases
+        c.ns = ns
+        c.name = name
+        it.ctx.events.append(("type", c))
+        return c
     return type(*args)
 
 
